@@ -18,6 +18,7 @@ type Chunk struct {
 	HasDef bool   `json:"hd,omitempty"`
 	Def    string `json:"d,omitempty"`
 	DefInt int    `json:"di,omitempty"`
+	Extra  string `json:"x,omitempty"` // todo: a second argument
 }
 
 // Arg is a YAML scalar used as parameter value, argument or field value.
@@ -51,6 +52,10 @@ func (c Chunk) String() string {
 		}
 		return "%envInt(" + q(c.S) + ")%"
 	case "todo":
+		if c.HasDef && c.Extra != "" {
+			// the documented function takes the first argument as the message; further ones are ignored
+			return "%todo(" + q(c.Def) + ", " + q(c.Extra) + ")%"
+		}
 		if c.HasDef {
 			return "%todo(" + q(c.Def) + ")%"
 		}
